@@ -7,6 +7,7 @@
   released) on a shard of any capacity, proved through the invariant `Inv` (Lemmas/LruCache.lean).
 -/
 import LcdbModel.Lemmas.LruCacheSpec
+import LcdbModel.Lemmas.LruCacheWrap
 import LcdbModel.Lemmas.LruHTable
 import LcdbModel.Lemmas.Bloom
 namespace Lcdb.LruCache
@@ -350,5 +351,185 @@ example : (shutdown ((run (Shard.empty 2) demo).get (by decide +kernel)).1).map 
 /-- releasing a handle that is not held is not well-formed, and the model refuses it -/
 example : wf (Shard.empty 2) [.insert [1] 10 1, .release 0, .release 0] = false ∧
     run (Shard.empty 2) [.insert [1] 10 1, .release 0, .release 0] = none := by decide +kernel
+
+/-! ### the whole 16-shard cache: scripts of cache-level ops (`COp`, `Cache.run`, Lemmas/LruCacheWrap.lean)
+
+  Every statement is about ANY cache-level script that runs without fault from `Cache.create cap` (a script faults only by
+  releasing a handle that is not held: `run_some_wf`), and is obtained by projecting the script to the 16 per-shard scripts
+  (`cache_run_proj`) and applying the shard theorem. -/
+
+/-- shard `i` after a cache script = the shard-level run of the projected script, which is well-formed -/
+theorem cache_shard_run (cap : Nat) (ops : List COp) (c : Cache) (outs : List COut)
+    (hr : (Cache.create cap).run ops = some (c, outs)) (i : Nat) (hi : i < 16) :
+    ∃ s o, c.shards[i]? = some s ∧ run (Shard.empty ((cap + 15) / 16)) (proj i ops) = some (s, o) ∧
+      wf (Shard.empty ((cap + 15) / 16)) (proj i ops) = true :=
+  cache_run_proj _ c ops outs hr i _ (create_getElem? cap i hi)
+
+theorem cache_shards_length (c c' : Cache) (ops : List COp) (outs : List COut) (h : c.run ops = some (c', outs)) :
+    ∀ i : Nat, (∃ s, c'.shards[i]? = some s) ↔ (∃ s, c.shards[i]? = some s) := by
+  induction ops generalizing c outs with
+  | nil => simp [Cache.run] at h; obtain ⟨rfl, _⟩ := h; intro i; rfl
+  | cons op ops ih =>
+    simp only [Cache.run] at h
+    cases hst : c.step op with
+    | none => simp [hst] at h
+    | some p =>
+      obtain ⟨c1, o⟩ := p
+      simp only [hst] at h
+      cases hr : Cache.run c1 ops with
+      | none => simp [hr] at h
+      | some q =>
+        obtain ⟨c2, os⟩ := q
+        simp [hr] at h; obtain ⟨rfl, _⟩ := h
+        intro i
+        rw [ih c1 os hr i]
+        -- one step keeps the set of shard indices
+        have hlen : c1.shards.length = c.shards.length := by
+          cases op with
+          | insert k v ch =>
+            simp only [Cache.step, Cache.insert] at hst
+            cases hh : c.onShard (shardOf k) (fun s => (LruCache.insert s k v ch).map fun (s', h) => (s', (shardOf k, h))) with
+            | none => simp [hh] at hst
+            | some p => obtain ⟨c', a⟩ := p; simp [hh] at hst; obtain ⟨rfl, _⟩ := hst
+                        obtain ⟨_, _, _, _, h3⟩ := onShard_spec _ _ _ _ _ hh; rw [h3]; simp
+          | lookup k =>
+            simp only [Cache.step, Cache.lookup] at hst
+            cases hh : c.onShard (shardOf k) (fun s => (LruCache.lookup s k).map fun (s', h) => (s', h.map fun h => (shardOf k, h))) with
+            | none => simp [hh] at hst
+            | some p => obtain ⟨c', a⟩ := p; simp [hh] at hst; obtain ⟨rfl, _⟩ := hst
+                        obtain ⟨_, _, _, _, h3⟩ := onShard_spec _ _ _ _ _ hh; rw [h3]; simp
+          | release hd =>
+            simp only [Cache.step, Cache.release] at hst
+            cases hh : c.onShard hd.1 (fun s => (LruCache.release s hd.2).map fun s' => (s', ())) with
+            | none => simp [hh] at hst
+            | some p => obtain ⟨c', a⟩ := p; simp [hh] at hst; obtain ⟨rfl, _⟩ := hst
+                        obtain ⟨_, _, _, _, h3⟩ := onShard_spec _ _ _ _ _ hh; rw [h3]; simp
+          | erase k =>
+            simp only [Cache.step, Cache.erase] at hst
+            cases hh : c.onShard (shardOf k) (fun s => (LruCache.erase s k).map fun s' => (s', ())) with
+            | none => simp [hh] at hst
+            | some p => obtain ⟨c', a⟩ := p; simp [hh] at hst; obtain ⟨rfl, _⟩ := hst
+                        obtain ⟨_, _, _, _, h3⟩ := onShard_spec _ _ _ _ _ hh; rw [h3]; simp
+          | prune =>
+            simp only [Cache.step, Cache.prune] at hst
+            cases hm : mapM' LruCache.prune c.shards with
+            | none => simp [hm] at hst
+            | some ss => simp [hm] at hst; obtain ⟨rfl, _⟩ := hst; exact (mapM'_spec _ _ _ hm).1
+        constructor
+        · rintro ⟨s, hs⟩; have := getElem?_lt hs; rw [hlen] at this; exact ⟨c.shards[i], by simp [this]⟩
+        · rintro ⟨s, hs⟩; have := getElem?_lt hs; rw [← hlen] at this; exact ⟨c1.shards[i], by simp [this]⟩
+
+/-- every shard of the cache satisfies the shard invariant, and there are exactly 16 of them -/
+theorem cache_inv (cap : Nat) (ops : List COp) (c : Cache) (outs : List COut)
+    (hr : (Cache.create cap).run ops = some (c, outs)) (i : Nat) (s : Shard) (hs : c.shards[i]? = some s) :
+    i < 16 ∧ Inv s := by
+  have hi : i < 16 := by
+    obtain ⟨s0, h0⟩ := (cache_shards_length _ _ _ _ hr i).1 ⟨s, hs⟩
+    have := getElem?_lt h0; simpa [Cache.create, numShards] using this
+  obtain ⟨s', o, h1, h2, h3⟩ := cache_shard_run cap ops c outs hr i hi
+  rw [hs] at h1; cases h1
+  exact ⟨hi, (run_facts h3 h2).1⟩
+
+theorem projOp_eq_insert (i : Nat) (op : COp) (k : Bytes) (v ch : Nat) (h : projOp i op = [.insert k v ch]) :
+    op = .insert k v ch := by
+  cases op with
+  | insert k2 v2 c2 =>
+    simp only [projOp] at h; split at h
+    · simp at h; obtain ⟨rfl, rfl, rfl⟩ := h; rfl
+    · cases h
+  | lookup k2 => simp only [projOp] at h; split at h <;> simp at h
+  | release hd => simp only [projOp] at h; split at h <;> simp at h
+  | erase k2 => simp only [projOp] at h; split at h <;> simp at h
+  | prune => simp [projOp] at h
+
+/-- **cache_lookup_coherent**: after any cache script, `ldb_lru_lookup(k)` does not fault and returns nothing, or a handle whose
+    value is the value `v` of the LATEST `insert k v _` of the script, with no `erase k` after it — never a stale value of an
+    older insert of `k`, never a value inserted under another key (whichever shard it lives in) -/
+theorem cache_lookup_coherent (cap : Nat) (ops : List COp) (c : Cache) (outs : List COut)
+    (hr : (Cache.create cap).run ops = some (c, outs)) (k : Bytes) :
+    ∃ c' h, c.lookup k = some (c', h) ∧
+      (h = none ∨ ∃ id v ch pre post, h = some (shardOf k, id) ∧ c'.value (shardOf k, id) = some v ∧
+        ops = pre ++ .insert k v ch :: post ∧
+        (∀ op ∈ post, op ≠ .erase k ∧ ∀ v' c', op ≠ .insert k v' c') ∧
+        latest (proj (shardOf k) ops) k = some id) := by
+  have hi := shardOf_lt k
+  obtain ⟨s, o, hs, hrun, hwf⟩ := cache_shard_run cap ops c outs hr (shardOf k) hi
+  obtain ⟨s', hl, hh⟩ := lookup_coherent _ _ s o hwf hrun k
+  have hlt := getElem?_lt hs
+  refine ⟨{ c with shards := c.shards.set (shardOf k) s' }, (s.table k).map fun h => (shardOf k, h),
+    by simp [Cache.lookup, Cache.onShard, hs, hl], ?_⟩
+  rcases hh with h | ⟨id, v, ch, h1, h2, h3, h4⟩
+  · left; simp [h]
+  · right
+    obtain ⟨pre', post', v', c', he, _, hins, hpost⟩ := latest_spec _ k id h2
+    rw [h3] at hins; simp at hins; obtain ⟨rfl, rfl⟩ := hins
+    obtain ⟨pre, op, post, hops, hop, _, hpp⟩ := proj_split _ ops pre' post' _ he
+    have hopeq : op = .insert k v ch := projOp_eq_insert _ op k v ch hop
+    subst hopeq
+    refine ⟨id, v, ch, pre, post, by simp [h1], ?_, hops, ?_, h2⟩
+    · simp [Cache.value, hlt, h4]
+    · intro op hop
+      refine ⟨?_, ?_⟩
+      · rintro rfl
+        have := mem_proj (shardOf k) post _ hop (.erase k) (by simp [projOp])
+        rw [hpp] at this; exact (hpost _ this).1 rfl
+      · rintro v2 c2 rfl
+        have := mem_proj (shardOf k) post _ hop (.insert k v2 c2) (by simp [projOp])
+        rw [hpp] at this; exact (hpost _ this).2 v2 c2 rfl
+
+/-- **cache_pinned_never_deleted**: a handle (shard, entry) the client holds is in no deleter log -/
+theorem cache_pinned_never_deleted (cap : Nat) (ops : List COp) (c : Cache) (outs : List COut)
+    (hr : (Cache.create cap).run ops = some (c, outs)) (h : Handle) (hh : h ∈ c.heldAll) : h ∉ c.deletedAll := by
+  obtain ⟨i, id⟩ := h
+  simp only [Cache.heldAll, Cache.deletedAll, mem_tagFrom, Nat.sub_zero, List.getElem?_map] at hh ⊢
+  obtain ⟨_, x, hx, hid⟩ := hh
+  rintro ⟨_, y, hy, hid'⟩
+  cases hs : c.shards[i]? with
+  | none => simp [hs] at hx
+  | some s =>
+    simp [hs] at hx hy; subst hx; subst hy
+    obtain ⟨hi, _⟩ := cache_inv cap ops c outs hr i s hs
+    obtain ⟨s', o, h1, h2, h3⟩ := cache_shard_run cap ops c outs hr i hi
+    rw [hs] at h1; cases h1
+    exact (pinned_never_deleted _ _ s o h3 h2 id hid).1 hid'
+
+/-- **cache_deleted_once**: the concatenation of the 16 deleter logs (tagged with the shard) has no duplicate: no entry of the
+    cache is passed to its deleter twice -/
+theorem cache_deleted_once (cap : Nat) (ops : List COp) (c : Cache) (outs : List COut)
+    (hr : (Cache.create cap).run ops = some (c, outs)) : c.deletedAll.Nodup := by
+  apply nodup_tagFrom
+  intro x hx
+  simp only [List.mem_map] at hx
+  obtain ⟨s, hs, rfl⟩ := hx
+  obtain ⟨i, hi⟩ := List.mem_iff_getElem?.1 hs
+  exact (cache_inv cap ops c outs hr i s hi).2.ndDel
+
+/-- **cache_usage_is_sum**: `ldb_lru_usage` = the sum over the shards of the charges of their in-cache entries -/
+theorem cache_usage_is_sum (cap : Nat) (ops : List COp) (c : Cache) (outs : List COut)
+    (hr : (Cache.create cap).run ops = some (c, outs)) :
+    c.totalCharge = (c.shards.map fun s => sumCharge s.entries).sum := by
+  simp only [Cache.totalCharge]
+  congr 1
+  apply List.map_congr_left
+  intro s hs
+  obtain ⟨i, hi⟩ := List.mem_iff_getElem?.1 hs
+  exact (cache_inv cap ops c outs hr i s hi).2.usage
+
+/-- non-vacuity: keys `[0x61]` (shard 12) and `[0x62]` (shard 9) of a cache of capacity 16 (1 per shard) -/
+def cdemo : List COp :=
+  [.insert [0x61] 5 1, .insert [0x62] 6 1, .lookup [0x61], .release (12, 0), .release (12, 0), .insert [0x61] 7 1,
+   .lookup [0x61], .erase [0x62], .prune]
+
+example : shardOf [0x61] = 12 ∧ shardOf [0x62] = 9 := by decide +kernel
+
+example : ((Cache.create 16).run cdemo).map (·.2) =
+    some [.handle (some (12, 0)), .handle (some (9, 0)), .handle (some (12, 0)), .unit, .unit, .handle (some (12, 1)),
+          .handle (some (12, 1)), .unit, .unit] := by decide +kernel
+
+example : ((Cache.create 16).run cdemo).map (fun p => (p.1.deletedAll, p.1.heldAll, p.1.totalCharge)) =
+    some ([(12, 0)], [(9, 0), (12, 1), (12, 1)], 1) := by decide +kernel
+
+example : proj 12 cdemo = [.insert [0x61] 5 1, .lookup [0x61], .release 0, .release 0, .insert [0x61] 7 1, .lookup [0x61], .prune] ∧
+    proj 9 cdemo = [.insert [0x62] 6 1, .erase [0x62], .prune] := by decide +kernel
 
 end Lcdb.LruCache
